@@ -64,9 +64,14 @@ enum Site {
     PathFramed,
     XattrFramed,
     XattrMatchNameFramed,
+    /// the selector character of %Ck and %Tk (the %Ak site above has the same shape)
+    ChangeSelector,
+    ModifySelectorFile,
 }
 
-const SITES: [Site; 27] = [
+const SITES: [Site; 29] = [
+    Site::ChangeSelector,
+    Site::ModifySelectorFile,
     Site::INameFramed,
     Site::PathFramed,
     Site::XattrFramed,
@@ -128,6 +133,18 @@ fn tree(site: Site, s: &str) -> Option<Expr> {
             a(Action::Printf(vec![Fmt::Field(Field::AccessFmt(c)), nl()]))
         }
         Site::Device => t(Test::Name("x".into())),
+        Site::ChangeSelector | Site::ModifySelectorFile => {
+            let mut cs = s.chars();
+            let c = cs.next()?;
+            if cs.next().is_some() {
+                return None;
+            }
+            if site == Site::ChangeSelector {
+                a(Action::Printf(vec![Fmt::Lit("t=".into()), Fmt::Field(Field::ChangeFmt(c)), nl()]))
+            } else {
+                a(Action::FPrintf("f".into(), vec![Fmt::Field(Field::ModifyFmt(c)), Fmt::Lit(" ".into()), Fmt::Field(Field::Name)]))
+            }
+        }
         Site::NameFramed => Expr::and(Expr::Test(Test::Name(s.into())), Expr::Action(Action::Print0)),
         Site::IPathFramed => Expr::and(Expr::Test(Test::IPath(s.into())), Expr::Action(Action::FPrint("f".into()))),
         Site::PoolFramed => Expr::and(Expr::Test(Test::Pool(s.into())), Expr::Action(Action::Print0)),
@@ -203,7 +220,7 @@ fn baseline_for(site: Site, s: &str) -> String {
     // a single quote: the benign string is of the same kind
     let glob = s.contains(|c| c == '*' || c == '?' || c == '[');
     match site {
-        Site::TimeSelector => "Y".into(),
+        Site::TimeSelector | Site::ChangeSelector | Site::ModifySelectorFile => "Y".into(),
         Site::XattrMatchName | Site::XattrMatchValue | Site::XattrMatchValueFramed | Site::XattrMatchNameFramed if s.contains('\'') || glob => format!("{MARK}*"),
         Site::Name | Site::IName | Site::Path | Site::IPath | Site::NameFramed | Site::IPathFramed | Site::INameFramed | Site::PathFramed if glob => format!("{MARK}*"),
         _ => MARK.into(),
@@ -212,7 +229,7 @@ fn baseline_for(site: Site, s: &str) -> String {
 
 fn expected_literal(site: Site, s: &str) -> String {
     match site {
-        Site::TimeSelector => format!("%{s}"),
+        Site::TimeSelector | Site::ChangeSelector | Site::ModifySelectorFile => format!("%{s}"),
         _ => s.to_string(),
     }
 }
@@ -482,6 +499,68 @@ fn octal_runs() -> Acc {
     })
 }
 
+/// Every escape of the format language between / before / after literal text that matters inside
+/// a Scheme format template (n, quote, tilde, backslash, percent): printed verbatim, program
+/// well-formed.
+fn specials_in_context() -> Acc {
+    let specials = [Special::Alarm, Special::Backspace, Special::Form, Special::Newline, Special::CarriageReturn, Special::Tab, Special::VTab, Special::Null, Special::Backslash, Special::Ascii(0o134), Special::Ascii(0o42), Special::Ascii(0o176)];
+    let lits = ["", "n", "\"", "~", "\\", "%", "a", "012", "~a", "x1e"];
+    let mut cases = vec![];
+    for s in &specials {
+        for before in lits {
+            for after in lits {
+                let mut f = vec![Fmt::Field(Field::Name)];
+                if !before.is_empty() {
+                    f.push(Fmt::Lit(before.into()));
+                }
+                f.push(Fmt::Special(s.clone()));
+                if !after.is_empty() {
+                    f.push(Fmt::Lit(after.into()));
+                }
+                cases.push(f.clone());
+                let mut g = f;
+                g.push(Fmt::Special(s.clone()));
+                cases.push(g);
+            }
+        }
+    }
+    par_cases(cases.len() as u64, |i, acc| {
+        for file in [false, true] {
+            let f = cases[i as usize].clone();
+            let act = if file { Action::FPrintf("f".into(), f) } else { Action::Printf(f) };
+            let tree = Expr::and(Expr::Test(Test::Name("sibling".into())), Expr::Action(act));
+            acc.states += 1;
+            acc.transitions += 1;
+            acc.count("specials_in_context", 1);
+            let Some(real) = conv::expr_to_real(&tree) else { continue };
+            let wit = json!({"kind": "c04-special", "tree": tree});
+            match compile_handle(&real, &subject::options(false, None)) {
+                C::Ok(h) => {
+                    if let Ok(text) = h.scheme("/dev/mdt0") {
+                        if let Err(e) = Prog::read(&text).and_then(|p| p.shape().map(|_| p)) {
+                            acc.violate(Violation::new("C04:unreadable:escape-in-context", format!("{}: {e}", tree.show()), wit));
+                            continue;
+                        }
+                    }
+                }
+                C::Err(e) => {
+                    acc.violate(Violation::new("C04:refused:escape-in-context", format!("{}: {e}", tree.show()), wit));
+                    continue;
+                }
+                C::Panic(p) => {
+                    acc.violate(Violation::new(format!("C04:panic:{}", panic_site(&p)), format!("{}: {p}", tree.show()), wit));
+                    continue;
+                }
+            }
+            let mut scratch = Acc::new();
+            match c02::validate(&tree, &real, &mut scratch) {
+                Ok(_) => acc.validated += 1,
+                Err(m) => acc.violate(Violation::new(format!("C04:escape-not-verbatim:escape-in-context:{}", m.aspect), format!("{}: {}", tree.show(), m.detail), wit)),
+            }
+        }
+    })
+}
+
 fn nth_string(mut idx: u64, len: usize) -> String {
     let mut s = String::new();
     for _ in 0..len {
@@ -549,11 +628,12 @@ pub fn run(ctx: &Ctx) -> i32 {
     acc = acc.merge(verbose);
     acc = acc.merge(escaped_pairs());
     acc = acc.merge(octal_runs());
+    acc = acc.merge(specials_in_context());
     // every Unicode scalar value inside the user string (quick: the whole Basic Multilingual Plane
     // and every 16th scalar of the other planes at four kinds of site; thorough: all, every site)
     {
         let thorough = ctx.tier == speclib::report::Tier::Thorough;
-        let sites: Vec<Site> = if thorough { SITES.iter().copied().filter(|s| *s != Site::TimeSelector).collect() } else { vec![Site::Name, Site::FPrintFile, Site::PrintfLiteral, Site::Xattr, Site::Device] };
+        let sites: Vec<Site> = if thorough { SITES.iter().copied().filter(|s| !matches!(s, Site::TimeSelector | Site::ChangeSelector | Site::ModifySelectorFile)).collect() } else { vec![Site::Name, Site::FPrintFile, Site::PrintfLiteral, Site::Xattr, Site::Device] };
         let ns = sites.len() as u64;
         acc = acc.merge(par_cases(0x110000 * ns, |i, acc| {
             let cp = (i / ns) as u32;
@@ -592,6 +672,9 @@ pub fn run(ctx: &Ctx) -> i32 {
 
 pub fn replay(w: &Value) -> Vec<Violation> {
     let mut acc = Acc::new();
+    if w["kind"] == "c04-special" {
+        return specials_in_context().violations.into_values().map(|(v, _)| v).collect();
+    }
     if w["kind"] == "c04-octal-run" {
         return octal_runs().violations.into_values().map(|(v, _)| v).collect();
     }
